@@ -363,6 +363,8 @@ def _classify(an: Analysis, module, name, value, cls):
         if short_name in ('__make_init__', '__binary_op__', '__comparison_op__'):
             return 'ok', 'generated function'
         binding = an.p.resolve_dotted(module, value.func)
+        if binding == ('ext', 'builtins.object') and not value.args and not value.keywords:
+            return 'ok', 'a bare object(): a marker without any attribute to write'
         if binding[0] == 'class':
             qn = binding[1]
             if qn == HANDLER:
